@@ -69,9 +69,16 @@ var concSources = []string{
 	`find all '\x63' '\x64' or "\x7a\x7A" or '\x20'`,
 	`find all caseless 'résumé' or caseless 'É'`,
 	`find all caseless 'AB' (any = v) maybe caseless 'é'`,
+	// linear on the long text (the last of concTexts): loops of hundreds of iterations
+	`find all at least 1 'a' 'b'`,
+	`find all at least 1 ('a' = v) named L 'b'`,
 }
 
-var concTexts = []string{"abba abab c abcd abbc", "aabbc ac bcb abcc", "a1b22 xyzzyx qq", "", "ababababababababababab aaaaaaaaaaaaaaaaaaaaaaaaaaaaaa 01234567890123456789", "Résumé résumé RÉSUMÉ É é abAB cd12 zZ"}
+// the last two sources are the only ones run on the long text (the others are
+// quadratic or worse on 270 equal letters)
+const concLongSources = 2
+
+var concTexts = []string{"abba abab c abcd abbc", "aabbc ac bcb abcc", "a1b22 xyzzyx qq", "", "ababababababababababab aaaaaaaaaaaaaaaaaaaaaaaaaaaaaa 01234567890123456789", "Résumé résumé RÉSUMÉ É é abAB cd12 zZ", strings.Repeat("a", 270) + "b"}
 
 type concResult struct {
 	err  string
@@ -181,14 +188,34 @@ func TestC19(t *testing.T) {
 	rapid.Check(t, func(t *rapid.T) {
 		c := ConcCase{Sources: concSources, Texts: concTexts, Reps: envInt("VERIF_C19_REPS", 20)}
 		ng := rapid.IntRange(2, 16).Draw(t, "goroutines")
+		// a quarter of the job sets are compile storms: every goroutine compiles sources
+		// with regex literals only, so that literals of different programs interleave
+		storm := rapid.IntRange(0, 3).Draw(t, "storm") == 0
+		var regexSources []int
+		for i, src := range concSources {
+			if strings.Contains(src, "@/") {
+				regexSources = append(regexSources, i)
+			}
+		}
+		if storm {
+			ng = rapid.IntRange(8, 16).Draw(t, "stormgoroutines")
+			st.Count("compile_storms")
+		}
 		regexCompilers, runners := 0, map[int]int{}
 		for g := 0; g < ng; g++ {
 			var job []ConcOp
 			sawRegex := false
 			ranProg := map[int]bool{}
 			for i := rapid.IntRange(1, 6).Draw(t, "nops"); i > 0; i-- {
-				op := ConcOp{Src: rapid.IntRange(0, len(concSources)-1).Draw(t, "src"), Text: rapid.IntRange(0, len(concTexts)-1).Draw(t, "text")}
-				if rapid.IntRange(0, 2).Draw(t, "kind") != 0 {
+				op := ConcOp{Src: rapid.IntRange(0, len(concSources)-1).Draw(t, "src"), Text: rapid.IntRange(0, len(concTexts)-2).Draw(t, "text")}
+				if rapid.IntRange(0, 5).Draw(t, "longtext") == 0 {
+					op.Text = len(concTexts) - 1
+					op.Src = len(concSources) - 1 - rapid.IntRange(0, concLongSources-1).Draw(t, "longsrc")
+				}
+				if storm {
+					op = ConcOp{Src: rapid.SampledFrom(regexSources).Draw(t, "stormsrc"), Text: 0}
+				}
+				if storm || rapid.IntRange(0, 2).Draw(t, "kind") != 0 {
 					op.Kind = "compile"
 					if strings.Contains(concSources[op.Src], "@/") {
 						sawRegex = true
